@@ -21,6 +21,8 @@ import (
 	"fmt"
 	"io"
 	"regexp"
+	"slices"
+	"sort"
 	"strconv"
 )
 
@@ -37,6 +39,10 @@ type FileInfo struct {
 	// once by indexObjects so findObject runs in constant time; resolving an
 	// indirect /Length for every object would otherwise be O(N²).
 	objIndex map[Reference]*FileObject
+
+	// objStarts holds the start positions of all located objects in
+	// increasing order (built by indexObjects).
+	objStarts []int64
 }
 
 // FileSection contains information about the part of the PDF file
@@ -99,6 +105,11 @@ func (fi *FileInfo) doRead(objInfo *FileObject, getInt getIntFn, scalarOnly bool
 	s.fileReader = fi.R
 	s.filePos = objInfo.ObjStart
 	s.scalarOnly = scalarOnly
+	// a stream whose "endstream" has to be searched for cannot extend beyond
+	// the start of the next object
+	if i := sort.Search(len(fi.objStarts), func(i int) bool { return fi.objStarts[i] > objInfo.ObjStart }); i < len(fi.objStarts) {
+		s.findLimit = fi.objStarts[i]
+	}
 
 	x, ref, err := s.ReadIndirectObject()
 	if err != nil {
@@ -420,6 +431,15 @@ func (fi *FileInfo) indexObjects() {
 		}
 	}
 	fi.objIndex = index
+
+	var starts []int64
+	for _, section := range fi.Sections {
+		for _, obj := range section.Objects {
+			starts = append(starts, obj.ObjStart)
+		}
+	}
+	slices.Sort(starts)
+	fi.objStarts = starts
 }
 
 func (fi *FileInfo) findObject(ref Reference) *FileObject {
